@@ -365,6 +365,7 @@ fn spawn_async_ao_list_in_task'''),
         ('one-pipe-too-few', IN, 'for _ in 0..(pipeline_len - 1) {', 'for _ in 0..(pipeline_len - 2) {'),
     ],
     'U4m': [
+        ('external-spawn-failure-skips-the-hook', 'brush-core/src/commands.rs', "        shell.update_last_arg_variable(last_arg);\n\n        if let Some(post_execute) = self.post_execute {\n            let _ = post_execute(&mut shell);\n        }\n\n        result\n    }\n}\n\npub(crate) fn execute_external_command(", "        shell.update_last_arg_variable(last_arg);\n\n        let spawned = result?;\n\n        if let Some(post_execute) = self.post_execute {\n            let _ = post_execute(&mut shell);\n        }\n\n        Ok(spawned)\n    }\n}\n\npub(crate) fn execute_external_command("),
         ('builtin-error-skips-hook', 'brush-core/src/commands.rs', '''        if let Some(post_execute) = self.post_execute {
             let _ = post_execute(&mut shell);
         }
